@@ -127,6 +127,10 @@ def call_abstract(eng, st, f, pos, kw):
             s = s.updobj(me.oid, **{"attr:retries": VInt(fresh("retries", z3.IntSort()))})
             if k == "ok":
                 s = s.setghost("step_calls", _trace(s, "step_calls") + ({"sampler": me, "pos": tuple(pos[1:]), "kw": dict(kw), "res": v},))
+                if s.ghost.get("chain_mode"):
+                    # _sample_chain: the steps of the chain are counted, pts[c] = the result of the c-th step
+                    c = s.ghost.get("chain_count", z3.IntVal(0)) + 1
+                    s = s.setghost("chain_count", c).setghost("pts", z3.Store(_g(s, "pts"), c, v.t))
             out.append((k, s, v))
         return out
     return None
@@ -315,3 +319,359 @@ def _si_case():
 
 REG.add(Contract(MA, "ACHRSampler.__single_iteration", "C16", [("self", sampler_t("ACHRSampler"))], [_si_case()], pre=_si_pre,
                  modifies=_si_mod, axioms=lambda E: rp_axioms(), key="ACHRSampler.__single_iteration"))
+
+
+# ================================================================ ACHRSampler.sample
+def _g(st, key):
+    """ghost arrays of the sampling loop (initially arbitrary, nothing written)"""
+    dflt = {"pts": z3.Const("pts0", IntNP), "rows": z3.Const("rows0", IntNP), "row_it": z3.Const("row_it0", IntInt),
+            "written": z3.K(z3.IntSort(), z3.BoolVal(False))}
+    return st.ghost.get(key, dflt[key])
+
+
+def samples_array(n, w):
+    """np.zeros((n, warmup.shape[1]))"""
+    return N.term("numpy.zeros", N.term("tuple", N.of_int(n), N.term("getitem", N.term("attr.shape", w), N.of_int(1))))
+
+
+def s_call_method(eng, st, recv, name, pos, kw):
+    if isinstance(recv, VObj) and recv.cls == "ACHRSampler" and name == "__single_iteration":
+        out = []
+        for k, s, v in eng.apply_contract(st, REG.get("ACHRSampler.__single_iteration"), [recv], {}):
+            if k == "ok":
+                # ghost: the point reached when the iteration counter took its new value
+                s = s.setghost("pts", z3.Store(_g(s, "pts"), at(s, recv, "n_samples").t, at(s, recv, "prev").t))
+            out.append((k, s, v))
+        return out
+    return None
+
+
+def s_setitem(eng, st, obj, idx, val):
+    """samples[r, :] = point: recorded per row together with the iteration counter at that moment"""
+    me = st.ghost.get("the_sampler")
+    if isinstance(obj, N.VNp) and isinstance(idx, VTuple) and len(idx.items) == 2 and isinstance(idx.items[0], VInt) \
+            and isinstance(idx.items[1], VSlice) and all(isinstance(x, VNone) for x in (idx.items[1].lo, idx.items[1].hi, idx.items[1].step)) \
+            and isinstance(val, N.VNp) and me is not None:
+        arr = st.ghost.get("rows_of")
+        if arr is not None and not arr.eq(obj.t):
+            raise Unsupported("rows written into two different arrays")
+        r = idx.items[0].t
+        cnt = st.ghost.get("chain_count")
+        cnt = at(st, me, "n_samples").t if cnt is None else cnt
+        st = st.setghost("rows_of", obj.t).setghost("rows", z3.Store(_g(st, "rows"), r, val.t)) \
+            .setghost("row_it", z3.Store(_g(st, "row_it"), r, cnt)) \
+            .setghost("written", z3.Store(_g(st, "written"), r, z3.BoolVal(True)))
+        return [("ok", st, NONE)]
+    return None
+
+
+def s_getattr(eng, st, v, name):
+    if isinstance(v, VConc) and isinstance(v.py, tuple) and v.py[0] == "module" and v.py[1] == "pandas" and name == "DataFrame":
+        return [("ok", st, VFunc("abstract", "pandas.DataFrame"))]
+    return None
+
+
+def s_call_abstract(eng, st, f, pos, kw):
+    if f.a == "pandas.DataFrame":
+        data = pos[0] if pos else kw.get("data")
+        res = N.VNp(fresh("np:DataFrame", N.NP))
+        calls = _trace(st, "df_calls")
+        return [("ok", st.setghost("df_calls", calls + ({"data": data, "columns": kw.get("columns"), "state": st, "res": res,
+                                                           "extra": sorted(set(kw) - {"data", "columns"}), "npos": len(pos)},)), res)]
+    return None
+
+
+HOOKS_S = chain_hooks({"call_method": s_call_method, "setitem": s_setitem, "getattr": s_getattr, "call_abstract": s_call_abstract}, HOOKS)
+
+
+def _sample_pre(E):
+    me = E["self"]
+    dl = at(E.s0, me_model(E.s0, me), "reactions")
+    return z3.And(_si_pre(E), E["n"].t >= 0, WF(E, E.s0, dl))
+
+
+def me_model(st, me):
+    return at(st, me, "model")
+
+
+def rows_ok(st0, me, st, ns0, T, upto, with_written=True):
+    """rows [0, upto): written, at counter ns0 + (r+1)*T, holding the point reached at that counter, which passed the guard"""
+    r = qv("rr")
+    rows, row_it, written, pts = _g(st, "rows"), _g(st, "row_it"), _g(st, "written"), _g(st, "pts")
+    return FA([r], z3.Implies(z3.And(0 <= r, r < upto),
+                              z3.And(written[r], row_it[r] == ns0 + (r + 1) * T, rows[r] == pts[row_it[r]], okpt(st0, me, rows[r]))),
+              patterns=[rows[r], written[r]])
+
+
+def only_rows(st, upto):
+    r = qv("wr")
+    written = _g(st, "written")
+    return FA([r], z3.Implies(written[r], z3.And(0 <= r, r < upto)), patterns=[written[r]])
+
+
+def _sample_inv(E, Lc):
+    me, st, k = E["self"], Lc.st, Lc.i
+    T, ns0, n = at(E.s0, me, "thinning").t, at(E.s0, me, "n_samples").t, E["n"].t
+    m = qv("pm")
+    pts = _g(st, "pts")
+    filled = k / T                                                       # iterations done // thinning (thinning >= 1)
+    arr = st.ghost.get("rows_of")
+    return z3.And(Lc.n == T * n,
+                  at(st, me, "n_samples").t == ns0 + k,
+                  z3.Implies(k >= 1, z3.And(at(st, me, "prev").t == pts[ns0 + k], okpt(E.s0, me, at(st, me, "prev").t))),
+                  rows_ok(E.s0, me, st, ns0, T, filled),
+                  only_rows(st, filled),
+                  z3.BoolVal(arr is None or arr.eq(samples_array(n, at(E.s0, me, "warmup").t))))
+
+
+def _sample_loop_mod(E, Lc):
+    A = samples_array(E["n"].t, at(E.s0, E["self"], "warmup").t)
+    return _si_mod(E)[:4] + [("ghost", "pts", lambda st: fresh("pts", IntNP)), ("ghost", "rows", lambda st: fresh("rows", IntNP)),
+                             ("ghost", "row_it", lambda st: fresh("row_it", IntInt)), ("ghost", "written", lambda st: fresh("written", IntBool)),
+                             ("ghost", "rows_of", lambda st: A)]
+
+
+def frame_columns(E, fluxes):
+    """the returned frame: pd.DataFrame(<data>, columns=<names>) - one call, data and names as documented"""
+    me, s0, s1 = E["self"], E.s0, E.s1
+    calls = _trace(s1, "df_calls")
+    if len(calls) != 1 or calls[0]["res"] is not E.res or calls[0]["extra"] or not isinstance(calls[0]["data"], N.VNp) \
+            or not isinstance(calls[0]["columns"], VObj):
+        return [z3.BoolVal(False)], None
+    c = calls[0]
+    rec = c["state"].objs[c["columns"].oid]
+    if "elem" not in rec or rec["elem"].sort().range() != (Id if fluxes else N.NP):
+        return [z3.BoolVal(False)], None
+    j = qv("cj")
+    model = me_model(s0, me)
+    if fluxes:
+        n_r, e_r = L(s0, at(s0, model, "reactions"))
+        ids = E.eng.heap_arr(s0, "_id")
+        cols = z3.And(rec["len"] == n_r, FA([j], z3.Implies(z3.And(0 <= j, j < n_r), rec["elem"][j] == ids[e_r[j]]), patterns=[rec["elem"][j]]))
+    else:
+        n_v, e_v = L(s0, at(s0, model, "variables"))
+        cols = z3.And(rec["len"] == n_v, FA([j], z3.Implies(z3.And(0 <= j, j < n_v), rec["elem"][j] == N.term("attr.name", e_v[j])),
+                                            patterns=[rec["elem"][j]]))
+    return [cols], c["data"].t
+
+
+def flux_columns(A, fwd, rev):
+    """samples[:, fwd_idx] - samples[:, rev_idx]"""
+    return N.term("sub", N.term("getitem", A, N.term("tuple", FULL, fwd)), N.term("getitem", A, N.term("tuple", FULL, rev)))
+
+
+def _sample_post(fluxes):
+    def post(E):
+        me, s0, s1 = E["self"], E.s0, E.s1
+        T, ns0, n = at(s0, me, "thinning").t, at(s0, me, "n_samples").t, E["n"].t
+        A = samples_array(n, at(s0, me, "warmup").t)
+        cs, data = frame_columns(E, fluxes)
+        if data is not None:
+            cs.append(data == (flux_columns(A, at(s0, me, "fwd_idx").t, at(s0, me, "rev_idx").t) if fluxes else A))
+        arr = s1.ghost.get("rows_of")
+        cs.append(z3.BoolVal(arr is None or arr.eq(A)))                 # the rows were written into the array that is returned
+        cs.append(at(s1, me, "n_samples").t == ns0 + T * n)             # thinning * n iterations
+        cs.append(rows_ok(s0, me, s1, ns0, T, n))                       # row r = the point after (r+1)*thinning iterations; passed the guard
+        cs.append(only_rows(s1, n))                                     # exactly the rows 0 .. n-1 were written
+        return z3.And(*cs)
+    return post
+
+
+def _sample_mod(E):
+    return _sample_loop_mod(E, None) + [("ghost", "df_calls", lambda st: ()), ("ghost", "step_calls", lambda st: ()),
+                                        ("ghost", "_reproject_calls", lambda st: ()), ("ghost", "_random_point_calls", lambda st: ())]
+
+
+def _sample_cases(post):
+    out = []
+    for fl in (True, False):
+        c = Case("fluxes" if fl else "variables", ensures=post(fl))
+        c.params_override = {"fluxes": TConc(fl)}
+        c.applies = (lambda a, st, fl=fl: isinstance(a["fluxes"], VBool) and z3.is_true(a["fluxes"].t) == fl and
+                     (z3.is_true(a["fluxes"].t) or z3.is_false(a["fluxes"].t)))
+        c.may_raise = "RuntimeError"
+        c.ensures_on_raise = lambda E: z3.BoolVal(True)
+        c.modifies_on_raise = _sample_mod
+        out.append(c)
+    return out
+
+
+_fl = TConc(True)
+_fl.default = VBool(True)
+
+
+def _achr_self():
+    def mk(st, name):
+        st, me = sampler_t("ACHRSampler").make(st, name)
+        return st.setghost("the_sampler", me), me
+    return TCustom(mk)
+
+
+REG.add(Contract(MA, "ACHRSampler.sample", "C16", [("self", _achr_self()), ("n", TInt()), ("fluxes", _fl)], _sample_cases(_sample_post),
+                 pre=_sample_pre, modifies=_sample_mod, axioms=lambda E: rp_axioms(), result=_res_np("DataFrame"),
+                 loops={0: LoopSpec(_sample_inv, _sample_loop_mod)}, key="ACHRSampler.sample",
+                 note="n >= 0, thinning >= 1, nproj >= 1 (documented: int > 0), n_samples >= 0"))
+
+
+# ================================================================ optgp.mp_init
+def _mi_post(E):
+    return z3.BoolVal(E.s1.ghost.get(("global", "sampler")) is E["obj"])
+
+
+REG.add(Contract(MO, "mp_init", "C14", [("obj", sampler_t("OptGPSampler"))], [Case("any", ensures=_mi_post)],
+                 modifies=lambda E: [("ghost", ("global", "sampler"), lambda st: E["obj"])], key="mp_init", props=["C14", "C16"]))
+
+
+# ================================================================ optgp._sample_chain
+INT32_MAX = 2 ** 31 - 1
+IINFO32 = z3.Const("np:iinfo(int32)", N.NP)
+
+
+def c_getattr(eng, st, v, name):
+    if isinstance(v, VFunc) and v.kind == "npfunc" and v.a == "numpy.random" and name in ("seed", "randint"):
+        return [("ok", st, VFunc("abstract", "numpy.random." + name))]
+    if isinstance(v, VConc) and isinstance(v.py, tuple) and v.py[0] == "module" and v.py[1] == "numpy" and name == "iinfo":
+        return [("ok", st, VFunc("abstract", "numpy.iinfo"))]
+    if isinstance(v, N.VNp) and v.t.eq(IINFO32) and name == "max":
+        return [("ok", st, VInt(INT32_MAX))]                        # np.iinfo(np.int32).max
+    return None
+
+
+def c_call_abstract(eng, st, f, pos, kw):
+    if f.a == "numpy.iinfo":
+        if len(pos) == 1 and isinstance(pos[0], VFunc) and pos[0].kind == "npfunc" and pos[0].a == "numpy.int32":
+            return [("ok", st, N.VNp(IINFO32))]
+        raise Unsupported("np.iinfo of something else than np.int32")
+    if f.a == "numpy.random.seed":
+        # the generator is (re)seeded: recorded; a second seeding, or a seeding after a draw, is flagged
+        if st.ghost.get("rng_seed") is not None or st.ghost.get("rng_drawn") or len(pos) != 1 or not isinstance(pos[0], VInt):
+            return [("ok", st.setghost("rng_bad", True), NONE)]
+        return [("ok", st.setghost("rng_seed", pos[0].t), NONE)]
+    if f.a == "numpy.random.randint":
+        if st.ghost.get("rng_seed") is None:
+            st = st.setghost("rng_bad", True)                        # a draw BEFORE the seeding
+        return [("ok", st.setghost("rng_drawn", True), N.VNp(fresh("np:random", N.NP)))]
+    return None
+
+
+HOOKS_C = chain_hooks({"getattr": c_getattr, "call_abstract": c_call_abstract, "setitem": s_setitem}, HOOKS)
+
+
+def _chain_self():
+    def mk(st, name):
+        st, me = sampler_t("OptGPSampler").make(st, name)
+        return st.setghost("the_sampler", me).setghost("chain_mode", True), me
+    return TCustom(mk)
+
+
+def chain_array(n, center):
+    """np.zeros((n, center.shape[0]))"""
+    return N.term("numpy.zeros", N.term("tuple", N.of_int(n), N.term("getitem", N.term("attr.shape", center), N.of_int(0))))
+
+
+def chain_rows_ok(st0, me, st, T, upto):
+    """rows [0, upto) of the chain: written when the step counter was 1 + (r+1)*thinning (1 = the start-up step), holding the result of
+    that step or the random point that replaced it at a re-projection; either passed the guard of step or is a _random_point"""
+    r = qv("rr")
+    rows, row_it, written, pts = _g(st, "rows"), _g(st, "row_it"), _g(st, "written"), _g(st, "pts")
+    w = at(st0, me, "warmup").t
+    return FA([r], z3.Implies(z3.And(0 <= r, r < upto),
+                              z3.And(written[r], row_it[r] == 1 + (r + 1) * T, z3.Or(rows[r] == pts[row_it[r]], RP(w, rows[r])),
+                                     okpt(st0, me, rows[r]))), patterns=[rows[r], written[r]])
+
+
+KEPT = tuple(k for k in INT_ATTRS + NP_ATTRS if k != "retries")
+
+
+def _kept(s0, st, me):
+    """no field of the sampler but `retries` (bumped by step) is written"""
+    return z3.BoolVal(all(at(st, me, k) is at(s0, me, k) for k in KEPT) and at(st, me, "model") is at(s0, me, "model"))
+
+
+def _rng_ok(E, st):
+    seed = st.ghost.get("rng_seed")
+    if seed is None or st.ghost.get("rng_bad"):
+        return z3.BoolVal(False)
+    n, idx = E["args"].items
+    return seed == pymod(at(E.s0, E["sampler"], "_seed").t + idx.t, z3.IntVal(INT32_MAX))
+
+
+def _ns_start(E):
+    ns = at(E.s0, E["sampler"], "n_samples").t
+    return z3.If(ns > 1, ns, 1)
+
+
+def _chain_inv(E, Lc):
+    me, st, k = E["sampler"], Lc.st, Lc.i
+    n = E["args"].items[0].t
+    T = at(E.s0, me, "thinning").t
+    prev, center, ns = Lc.var("prev"), Lc.var("center"), Lc.var("n_samples")
+    if not (isinstance(prev, N.VNp) and isinstance(center, N.VNp) and isinstance(ns, VInt)):
+        return z3.BoolVal(False)
+    arr = st.ghost.get("rows_of")
+    pts = _g(st, "pts")
+    w = at(E.s0, me, "warmup").t
+    return z3.And(Lc.n == T * n,
+                  st.ghost.get("chain_count", z3.IntVal(0)) == k + 1,
+                  ns.t == _ns_start(E) + k,
+                  okpt(E.s0, me, prev.t), z3.Or(prev.t == pts[k + 1], RP(w, prev.t)),
+                  chain_rows_ok(E.s0, me, st, T, k / T), only_rows(st, k / T),
+                  z3.BoolVal(arr is None or arr.eq(chain_array(n, at(E.s0, me, "center").t))),
+                  _rng_ok(E, st), _kept(E.s0, st, me))
+
+
+def _chain_loop_mod(E, Lc):
+    me = E["sampler"]
+    A = chain_array(E["args"].items[0].t, at(E.s0, me, "center").t)
+    return [("attr", me, "retries", lambda st: (st, VInt(fresh("retries", z3.IntSort())))),
+            ("ghost", "pts", lambda st: fresh("pts", IntNP)), ("ghost", "rows", lambda st: fresh("rows", IntNP)),
+            ("ghost", "row_it", lambda st: fresh("row_it", IntInt)), ("ghost", "written", lambda st: fresh("written", IntBool)),
+            ("ghost", "rows_of", lambda st: A), ("ghost", "chain_count", lambda st: fresh("chain_count", z3.IntSort())),
+            ("ghost", "step_calls", lambda st: ()), ("ghost", "_reproject_calls", lambda st: ()), ("ghost", "_random_point_calls", lambda st: ()),
+            ("ghost", "rng_drawn", lambda st: True)]
+
+
+def _chain_mod(E):
+    return _chain_loop_mod(E, None) + [("ghost", "rng_seed", lambda st: fresh("rng_seed", z3.IntSort())), ("ghost", "rng_bad", lambda st: None)]
+
+
+def _chain_post(E):
+    me, s0, s1 = E["sampler"], E.s0, E.s1
+    n, idx = E["args"].items
+    T = at(s0, me, "thinning").t
+    if not (isinstance(E.res, VTuple) and len(E.res.items) == 2 and isinstance(E.res.items[0], VInt) and isinstance(E.res.items[1], N.VNp)):
+        return z3.BoolVal(False)
+    A = chain_array(n.t, at(s0, me, "center").t)
+    arr = s1.ghost.get("rows_of")
+    cs = [E.res.items[0].t == at(s1, me, "retries").t,                 # (sampler.retries, samples)
+          E.res.items[1].t == A, z3.BoolVal(arr is None or arr.eq(A)),
+          chain_rows_ok(s0, me, s1, T, n.t), only_rows(s1, n.t),       # exactly n rows, row r after (r+1)*thinning steps, guard passed
+          _kept(s0, s1, me)]                                           # centre / n_samples are updated LOCALLY only
+    if E.role == "goal":
+        cs.append(_rng_ok(E, s1))                                      # np.random.seed((seed + idx) % (2**31 - 1)) once, before any draw
+    return z3.And(*cs)
+
+
+def _chain_pre(E):
+    me = E["sampler"]
+    return z3.And(at(E.s0, me, "thinning").t >= 1, at(E.s0, me, "nproj").t >= 1, at(E.s0, me, "n_samples").t >= 0,
+                  E["args"].items[0].t >= 0)
+
+
+def _chain_case():
+    c = Case("any", ensures=_chain_post)
+    c.may_raise = "RuntimeError"
+    c.ensures_on_raise = lambda E: z3.BoolVal(True)
+    c.modifies_on_raise = _chain_mod
+    return c
+
+
+def _chain_res(eng, st, E):
+    return st, VTuple((VInt(fresh("chain_retries", z3.IntSort())), N.VNp(fresh("np:chain", N.NP))))
+
+
+REG.add(Contract(MO, "_sample_chain", "C14", [("args", TTuple([TInt(), TInt()])), ("sampler", _chain_self())], [_chain_case()],
+                 pre=_chain_pre, modifies=_chain_mod, axioms=lambda E: rp_axioms(), result=_chain_res, props=["C14", "C16"],
+                 loops={0: LoopSpec(_chain_inv, _chain_loop_mod)}, key="_sample_chain",
+                 note="`sampler` is the module global of cobra.sampling.optgp (set by mp_init) as a ghost parameter; n >= 0, thinning >= 1, "
+                      "nproj >= 1, n_samples >= 0"))
